@@ -100,6 +100,15 @@ int fe_cond_wait_contract(myth_cond_t * c, myth_mutex_t * m)
   __CPROVER_assigns(FE.status, g_waits)                   /* anything may happen while sleeping; returns holding (C05) */
   __CPROVER_ensures(g_waits == 1);
 int g_sig_idx;
+/* should wait_and_lock sleep on the queue directly: the waiter must enter the queue while it still holds the lock
+   (myth_block_on_queue releases the mutex it is given only after the enqueue) -- otherwise a mark_and_signal between
+   the release and the enqueue finds nobody to wake and the waiter sleeps forever */
+void fe_block_contract(myth_sleep_queue_t * q, myth_mutex_t * m)
+  __CPROVER_requires(q == FE.cond[g_wait_idx].sleep_q && "sleeps on the condition of the awaited status")
+  __CPROVER_requires(m == FE.mutex && g_hold == 1 && "the waiter enqueues itself before the lock is released (no lost wake-up)")
+  __CPROVER_assigns(FE.status, g_waits, g_hold)
+  __CPROVER_ensures(g_waits == 1 && g_hold == 0);
+
 int fe_cond_signal_contract(myth_cond_t * c)
   __CPROVER_requires(c == &FE.cond[g_sig_idx] && "signals the condition of the published status")
   /* (signalling after the unlock would also be correct: only "published before signalled" is demanded) */
